@@ -755,6 +755,9 @@ func (w *world) fmtArg(fr *frame, x value) any {
 			return v
 		}
 	case sym:
+		if u, ok := w.uniqueValue(v); ok {
+			return concreteOfKind(v.k, u)
+		}
 		return rawString("<sym>")
 	}
 	for _, m := range []string{"Error", "String"} {
@@ -786,6 +789,22 @@ func (w *world) fmtArg(fr *frame, x value) any {
 		}
 	}
 	return rawString(toString(itf.v))
+}
+
+// uniqueValue reports the value of s when the path condition pins it to one.
+func (w *world) uniqueValue(s sym) (uint64, bool) {
+	if w.sol == nil || s.k == types.Bool {
+		return 0, false
+	}
+	m, ok := w.model(nil)
+	if !ok {
+		return 0, false
+	}
+	v := w.evalModel(s.t, m)
+	if w.feasible(w.tt.not(w.tt.eq(s.t, w.tt.konst(s.t.w, v)))) == "unsat" {
+		return v, true
+	}
+	return 0, false
 }
 
 func (w *world) writeTo(fr *frame, wr iface, s string) value {
